@@ -156,7 +156,7 @@ func c05Body(c *core.Ctx, e *liquid.Engine, b string, i int) {
 	if i%3 == 2 {
 		expPre, expPost = "1", ""
 	}
-	if i%7 == 3 && !strings.Contains(b, "{") { // (a body with a brace could swallow the object that follows the end tag)
+	if i%7 == 3 {
 		// neighbours whose trim markers face the raw/comment tags: the markers act on literal text, not on a raw body
 		pre, post, expPre, expPost = "{{ 1 -}}", "{{- 2 }}", "1", "2"
 	}
